@@ -659,4 +659,44 @@ theorem convertDirLoop_cons_ok (T : Tool) (fmt : ResFormat) (mapd : Path → Pat
   | error x => simp at h
   | ok r => exact ⟨rfl, h⟩
 
+/-! ### File discovery (`globExt`, `discover`) -/
+
+/-- A name cannot end in two of the endings `main` looks for: one would be a suffix of the other. -/
+theorem ext_clash (n a b : List Char) (ha : endsWith n a = true) (hb : endsWith n b = true) :
+    a <:+ b ∨ b <:+ a := by
+  simp only [endsWith, List.isSuffixOf_iff_suffix] at ha hb
+  rcases Nat.le_total a.length b.length with h | h
+  · exact Or.inl (List.suffix_of_suffix_length_le ha hb h)
+  · exact Or.inr (List.suffix_of_suffix_length_le hb ha h)
+
+theorem inj_of_nodup_map {α β : Type} (f : α → β) :
+    ∀ (l : List α), (l.map f).Nodup → ∀ x ∈ l, ∀ y ∈ l, f x = f y → x = y
+  | [], _, x, hx, _, _, _ => by cases hx
+  | a :: l, nd, x, hx, y, hy, h => by
+    simp only [List.map_cons, List.nodup_cons, List.mem_map, not_exists, not_and] at nd
+    rcases List.mem_cons.1 hx with rfl | hx' <;> rcases List.mem_cons.1 hy with rfl | hy'
+    · rfl
+    · exact absurd h.symm (nd.1 y hy')
+    · exact absurd h (nd.1 x hx')
+    · exact inj_of_nodup_map f l nd.2 x hx' y hy' h
+
+theorem globExt_nodup (root : Path) (recursive : Bool) (tree : List (Path × List Char))
+    (nd : (tree.map fun e => pyJoin e.1 e.2).Nodup) (ext : List Char) :
+    (globExt root recursive tree ext).Nodup := by
+  unfold globExt
+  exact List.Nodup.sublist (List.Sublist.map _ List.filter_sublist) nd
+
+theorem globExt_disjoint (root : Path) (recursive : Bool) (tree : List (Path × List Char))
+    (nd : (tree.map fun e => pyJoin e.1 e.2).Nodup) (a b : List Char)
+    (hab : ¬ a <:+ b) (hba : ¬ b <:+ a) (p : Path)
+    (hpa : p ∈ globExt root recursive tree a) (hpb : p ∈ globExt root recursive tree b) : False := by
+  simp only [globExt, List.mem_map, List.mem_filter, Bool.and_eq_true] at hpa hpb
+  obtain ⟨e1, ⟨he1, hc1, _⟩, rfl⟩ := hpa
+  obtain ⟨e2, ⟨he2, hc2, _⟩, heq⟩ := hpb
+  have : e2 = e1 := inj_of_nodup_map _ tree nd e2 he2 e1 he1 heq
+  subst this
+  rcases ext_clash _ _ _ hc1 hc2 with h | h
+  · exact hab h
+  · exact hba h
+
 end Batch
